@@ -1,6 +1,7 @@
 package chainsim
 
 import (
+	"strings"
 	"github.com/decred/dcrd/dcrec/secp256k1/v4"
 	"fmt"
 	"time"
@@ -12,6 +13,7 @@ import (
 	bandtsstypes "github.com/bandprotocol/chain/v3/x/bandtss/types"
 	tsstypes "github.com/bandprotocol/chain/v3/x/tss/types"
 
+	"verifsim/core"
 	"verifsim/world"
 )
 
@@ -57,8 +59,12 @@ type DKGActor struct {
 
 func (a *DKGActor) OnBlock(e *Env, blk *world.BlockRecord) {}
 
+// the order of the secp256k1 group, big endian (the smallest 32-byte value that is not a scalar)
+var secp256k1OrderBytes = []byte{0xff, 0xff, 0xff, 0xff, 0xff, 0xff, 0xff, 0xff, 0xff, 0xff, 0xff, 0xff, 0xff, 0xff, 0xff, 0xfe,
+	0xba, 0xae, 0xdc, 0xe6, 0xaf, 0x48, 0xa0, 0x3b, 0xbf, 0xd2, 0x5e, 0x8c, 0xd0, 0x36, 0x41, 0x41}
+
 var dkgDeviations = []string{"r1_bad_a0sig", "r1_wrong_len_commits", "r1_other_member_id", "r2_corrupt_share", "r2_wrong_count", "r2_share_for_other",
-	"r3_false_complaint", "r3_bad_keysym", "r3_bad_confirm_sig", "dup_r1", "dup_r2", "r3_complain_self", "dup_r3", "r3_forged_complainant", "r3_false_complaint_noncanonical_keysym"}
+	"r3_false_complaint", "r3_bad_keysym", "r3_bad_confirm_sig", "dup_r1", "dup_r2", "r3_complain_self", "dup_r3", "r3_forged_complainant", "r3_false_complaint_noncanonical_keysym", "r2_share_out_of_range"}
 
 func (a *DKGActor) state(e *Env, gid uint64, m *TSSMember, mid uint64, size uint64) *dkgState {
 	if a.States == nil {
@@ -254,6 +260,28 @@ func (a *DKGActor) round2(e *Env, m *TSSMember, st *dkgState, g tsstypes.Group) 
 			enc[slot] = c
 			honest, kind = false, st.Deviation
 		}
+	case "r2_share_out_of_range":
+		// under the correct symmetric key the dealer encrypts 32 bytes that are not a share at all: zero, the group order, or
+		// all ones (not a canonical scalar). The recipient must still be able to prove the dealer wrong.
+		if st.Target != 0 && len(enc) > 0 {
+			slot := tsstypes.FindMemberSlot(tss.MemberID(st.MemberID), tss.MemberID(st.Target))
+			plain := make([]byte, 32)
+			switch e.Ch.Intn("dkg.r2.range", 3) {
+			case 1:
+				for i := range plain {
+					plain[i] = 0xff
+				}
+			case 2:
+				copy(plain, secp256k1OrderBytes)
+			}
+			if keySym, err := tss.ComputeSecretSym(dkg.OneTimePrivKey, oneTime[st.Target-1]); err == nil {
+				if c, err := tss.Encrypt(tss.Scalar(plain), keySym, tss.DefaultNonce16Generator{}); err == nil {
+					enc[slot] = c
+					honest, kind = false, st.Deviation
+					e.St.Fault("dkg_share_plaintext_outside_the_scalar_range")
+				}
+			}
+		}
 	case "r2_share_for_other":
 		// the share evaluated for another index is sent to the target
 		if st.Target != 0 && g.Size_ > 2 {
@@ -302,11 +330,30 @@ func (a *DKGActor) round3(e *Env, m *TSSMember, st *dkgState, g tsstypes.Group) 
 	groupRes := &cylclient.GroupResult{GroupResult: *res}
 	// the real cylinder helper decides between confirming and complaining
 	priv, complaints, err := cylgroup.GetOwnPrivKeyForVerif(dkg, groupRes)
+	addr := m.Acc.Addr.String()
 	if err != nil {
 		e.St.Probe("dkg_round3_helper_error")
+		// the member's own software cannot process what it was dealt. A share it cannot even decrypt is a bad share: it
+		// complains (with the library's own complaint routine) about every dealer known to have mis-dealt to it.
+		var cs []tsstypes.Complaint
+		r1me, err1 := groupRes.GetRound1Info(tss.MemberID(st.MemberID))
+		for _, k := range core.SortedKeys(a.States) {
+			o := a.States[k]
+			if o.GroupID != st.GroupID || o.MemberID == st.MemberID || o.Target != st.MemberID || !strings.HasPrefix(o.Deviation, "r2_") || err1 != nil {
+				continue
+			}
+			if r1o, err2 := groupRes.GetRound1Info(tss.MemberID(o.MemberID)); err2 == nil {
+				if sig, keySym, err3 := tss.SignComplaint(r1me.OneTimePubKey, r1o.OneTimePubKey, dkg.OneTimePrivKey); err3 == nil {
+					cs = append(cs, tsstypes.Complaint{Complainant: tss.MemberID(st.MemberID), Respondent: tss.MemberID(o.MemberID), KeySym: keySym, Signature: sig})
+				}
+			}
+		}
+		if len(cs) > 0 {
+			st.Complained = cs
+			e.Submit(m.Acc, "dkg_complain", &dkgMeta{Member: m, State: st, Round: 3, Kind: "honest_complaint", Complaints: cs, Honest: st.Deviation == ""}, tsstypes.NewMsgComplain(g.ID, cs, addr))
+		}
 		return
 	}
-	addr := m.Acc.Addr.String()
 	if st.Deviation == "r3_forged_complainant" && st.Target != 0 && st.Target != st.MemberID {
 		// a complaint filed in ANOTHER member's name (well-formed key and signature that cannot verify for that member)
 		r1me, err1 := groupRes.GetRound1Info(tss.MemberID(st.MemberID))
